@@ -211,7 +211,7 @@ def shard_paths(ctx: Ctx, sh: int, nshards: int, n: int) -> Stats:
             for sig, det in fails:
                 st.fail(sig, case, det[:1500])
 
-        drive(path_strategy(), one, ctx.shard_seed(sh, 19), n)
+        drive(path_strategy(), one, ctx.shard_seed(sh, 19), n, chunk=4000)
     return st
 
 
